@@ -208,7 +208,9 @@ func recvScenario(chunks, mix string, short bool) *vsched.Scenario {
 			c.Close()
 		})
 	}
-	sc.Outcome = func(ex *vsched.Exec) string { return fmt.Sprintf("got=%d err=%s@%d", len(got), errClass(firstErr), errAt) }
+	sc.Outcome = func(ex *vsched.Exec) string {
+		return fmt.Sprintf("got=%d err=%s@%d", len(got), errClass(firstErr), errAt)
+	}
 	sc.Check = func(ex *vsched.Exec) []vsched.Violation {
 		vs := baseChecks("C04", ex, false)
 		add := func(sig, msg string) { vs = append(vs, vsched.Violation{Sig: "C04 " + sig, Msg: msg}) }
